@@ -30,6 +30,7 @@ fn dispatch(v: &Value) -> Value {
         "alt_key" | "semver_compat" | "namemap" | "semver_parse" => ops_names::run(op, v),
         "lexer_spans" | "block_comment_length" | "lex_string" | "discover" | "lex_one" | "parse_pkgref" => ops_lexer::run(op, v),
         "subtype" | "package_from_wat" | "aggregate" | "validate_target" => ops_types::run(op, v),
+        "package_from_wit" => ops_types::package_from_wit(v),
         "graph" => ops_graph::run(op, v),
         "resolve_doc" | "plug" => ops_doc::run(op, v),
         _ => json!({"error": format!("unknown op {op}")}),
